@@ -27,6 +27,7 @@ import core  # noqa: F401
 import c12docs as D
 import isoutil
 from rdflib import BNode, ConjunctiveGraph, Dataset, Graph, Literal, URIRef
+from rdflib.graph import QuotedGraph
 
 warnings.filterwarnings("ignore")
 
@@ -42,7 +43,7 @@ RULE = ("sequences of 2-4 documents in mixed syntaxes (nt, nquads, turtle, n3, t
         "(sink, init, formats, abstract documents)")
 ASSUMPTIONS = ["BNode() ids (uuid4) differ from each other and from every id already present in the target (Lean: WF)",
                "caller-requested sharing (bnode_context=, preserve_bnode_ids=True, skolemize=True) is outside the statement",
-               "N3 formulae / quoted graphs are not generated"]
+               "N3: labels are not used inside formulae (N3 scopes _:x per formula); no variables / @forAll"]
 TRUSTED = ["harness/c12.py generators, harness/c12docs.py document writers (text is trusted to mean the abstract document)",
            "harness/c12.py canonical labelling (cross-checked on every case against harness/isoutil.iso)",
            "lean/RV/C12/Drive.lean line protocol"]
@@ -62,7 +63,9 @@ LAB = ["b0", "b1", "x", "genid1", "N" + H1, "N" + H2, "n" + H1 + "b1", "f" + H2 
        "_b0", "__b0", "b0_", "B0", "b-0", "b.0", "_", "b\u00b70",      # 12..19: legal in every syntax
        "0b0", "0",                                                    # 20..21: not an NCName (no rdf:nodeID)
        "b:0", "_:b0", ":b0", "b0_:", "_:_b0",                         # 22..26: `:` — N-Triples/N-Quads grammar, TriX, JSON-LD, hext
-       "1", "2", "3", "10"]                                           # 27..30: all digits (rdflib numbers its own nodes 1, 2, …)
+       "1", "2", "3", "10",                                           # 27..30: all digits (rdflib numbers its own nodes 1, 2, …)
+       D.EMPTY_ID]                                                    # 31: JSON-LD only: "@id": "" under "@base": null
+EMPTY = 31
 NEAR = [0] + list(range(12, 27))
 DIGITS = [27, 28, 29, 30, 21]
 COLON_OK = {"nt", "nquads", "trix", "json-ld", "hext"}
@@ -71,6 +74,8 @@ N3_FAMILY = ["turtle", "n3", "trig"]
 
 def label_ok(k, fmt):
     """may label number k be written in syntax fmt?"""
+    if k == EMPTY:
+        return fmt == "json-ld"
     if 22 <= k <= 26:
         return fmt in COLON_OK
     if k >= 20:
@@ -109,7 +114,14 @@ def _doc_features(quads):
     return f
 
 
+def _has_formula(quads):
+    gs = {q[3] for q in quads if q[3].startswith("a")}
+    return any(t in gs for q in quads for t in (q[0], q[2]))
+
+
 def compatible_fmts(quads, sink):
+    if _has_formula(quads):
+        return ["n3"]
     f = _doc_features(quads)
     fmts = []
     for fmt in dict.fromkeys(D.TRIPLE_FMTS + D.QUAD_FMTS):
@@ -175,7 +187,9 @@ def _gen_doc(rng, sink, idx, pool, earlier, init_bn):
 
     def pred():
         if genrdf and rng.random() < 0.5:
-            return lab()            # a blank node as property key; the same labels are subjects / objects / graph names
+            t = lab()               # a blank node as property key; the same labels are subjects / objects / graph names
+            if t != "n%d" % EMPTY:
+                return t
         return "i%d" % rng.choice(PRED_I)
 
     def gname():
@@ -200,6 +214,25 @@ def _gen_doc(rng, sink, idx, pool, earlier, init_bn):
         if quadfmt and rng.random() < 0.45:
             g = gname()
         r = rng.random() * (0.55 if counting else 1.0)
+        if fmt == "n3" and g == "-" and rng.random() < 0.3:
+            # an N3 formula  { … } p o  /  s p { … } : the formula is an anonymous node naming the graph of its statements
+            def ground():
+                return rng.choice(["i%d" % rng.choice(OBJ_I), "l%d" % rng.choice(list(LITS))])
+            f = "a%d" % nxt_anon[0]
+            nxt_anon[0] += 1
+            quads.append([f, pred(), obj(), g] if rng.random() < 0.5 else [subj(), pred(), f, g])
+            for _k in range(rng.randint(1, 2)):
+                quads.append(["i%d" % rng.choice(SUBJ_I), pred(), ground(), f])
+            if rng.random() < 0.25:          # a [] inside the formula
+                a = "a%d" % nxt_anon[0]
+                nxt_anon[0] += 1
+                quads.append([a, pred(), ground(), f])
+            if rng.random() < 0.3:           # a nested formula, last
+                f2 = "a%d" % nxt_anon[0]
+                nxt_anon[0] += 1
+                quads.append(["i%d" % rng.choice(SUBJ_I), pred(), f2, f])
+                quads.append(["i%d" % rng.choice(SUBJ_I), pred(), ground(), f2])
+            continue
         if anon_ok and fmt in N3_FAMILY and rng.random() < (0.3 if counting else 0.08):
             # a collection  s p ( x1 … xn )  =  n anonymous cells with rdf:first / rdf:rest
             n = rng.randint(1, 3)
@@ -257,6 +290,8 @@ def gen_case(rng, tier, i):
         pool = rng.sample(range(12), rng.randint(1, 3))
         if rng.random() < 0.5:
             pool[0] = rng.choice([0, 0, 4, 8])
+    if rng.random() < 0.15:
+        pool.append(EMPTY)       # (JSON-LD documents only; see label_ok)
     graphs = ["i0"] if sink == "graph" else ["i0", "i20", "b%d" % pool[0]]
     init = []
     for _ in range(rng.randint(0, 3)):
@@ -313,10 +348,17 @@ def _quads_of(t):
     else:
         for s, p, o in t:
             out.append((s, p, o, DEFAULT))
+    # N3 formulae: a quoted graph is a graph named by the formula's blank node; quads() does not list quoted statements
+    for c in list(t.store.contexts()):
+        if isinstance(c, QuotedGraph):
+            for s, p, o in c.triples((None, None, None)):
+                out.append((s, p, o, c.identifier))
     return {tuple(_norm(x) for x in q) for q in out}, len(out) - len(set(out))
 
 
 def _norm(x):
+    if isinstance(x, QuotedGraph):      # a formula used as a term of a statement: the blank node that names it
+        return x.identifier
     # RDF 1.1: "a"^^xsd:string is the simple literal "a" (rdflib keeps them apart; hextuples always writes the datatype)
     if isinstance(x, Literal) and x.datatype is not None and str(x.datatype) == XSDNS + "string":
         return Literal(str(x))
@@ -396,7 +438,8 @@ def _parse(target, kind, into_term, fmt, text, style, bnode_preds=False):
 
 
 def _bnode_preds(doc):
-    return any(q[1][0] in "nr" for q in doc["quads"])
+    """must the JSON-LD document be read with generalized_rdf=True?  (blank-node property keys; the empty @id)"""
+    return any(q[1][0] in "nr" for q in doc["quads"]) or any(t == "n%d" % EMPTY for q in doc["quads"] for t in q)
 
 
 def _resolvable(case, idx, term):
@@ -493,6 +536,15 @@ def _predicted_ids(case, pi):
         m = re.fullmatch(r"ub(\d+)b(L\d+C\d+)", b)
         if m:
             ids.append("ub%db%s" % (int(m.group(1)) + 1 + later, m.group(2)))
+    # formula nodes: `_:Formula<k>`, k counting every formula object the N3 parser has made so far (one root formula
+    # per N3 parse call plus one per { … })
+    def nform(d):
+        return 1 + len({q[3] for q in d["quads"] if q[3].startswith("a")}) if d["fmt"] == "n3" else 0
+    between = nform(doc) + sum(nform(d) for d in case["docs"][:pi])
+    for c in scratch.store.contexts():
+        m = re.fullmatch(r"_:Formula(\d+)", str(c.identifier)) if isinstance(c, QuotedGraph) else None
+        if m:
+            ids.append("_:Formula%d" % (int(m.group(1)) + between))
     ids = ids[:n]
     return ids + ["pred%d" % j for j in range(len(ids), n)]
 
@@ -627,7 +679,11 @@ def run_impl(case):
             stats["digit_label_with_anon_docs"] = stats.get("digit_label_with_anon_docs", 0) + 1
         if any(q[1] == "i30" for q in d["quads"]):
             stats["collection_docs"] = stats.get("collection_docs", 0) + 1
-        if _bnode_preds(d):
+        if _has_formula(d["quads"]):
+            stats["formula_docs"] = stats.get("formula_docs", 0) + 1
+        if any(t == "n%d" % EMPTY for q in d["quads"] for t in q):
+            stats["empty_id_docs"] = stats.get("empty_id_docs", 0) + 1
+        if any(q[1][0] in "nr" for q in d["quads"]):
             stats["bnode_predicate_docs"] = stats.get("bnode_predicate_docs", 0) + 1
             pl = {q[1] for q in d["quads"] if q[1][0] == "n"}
             if pl & {t for q in d["quads"] for t in (q[0], q[2], q[3])}:
@@ -784,7 +840,7 @@ def shrink(case):
                 nd = {**d, "quads": d["quads"][:j] + d["quads"][j + 1:]}
                 try:
                     cq, _ = _concrete_doc({**case, "docs": docs[:i] + [nd] + docs[i + 1:]}, i, lambda a, b: "x")
-                    D.check_shape(cq)
+                    D.check_shape(cq, formulas=(nd["fmt"] == "n3"))
                 except Exception:
                     continue
                 yield {**case, "docs": docs[:i] + [nd] + docs[i + 1:]}
@@ -828,4 +884,5 @@ MATCHERS = {"hext_verbatim_labels": _k1,
             "nquads_default_graph_wiped": _only_on("nquads", ("removed", "merge")),
             "hext_default_graph_wiped": _only_on("hext", ("removed", "merge")),
             "n3_anon_counter_ids": _only_on("n3", ("merge",)),
-            "hext_label_prefix_strip": _only_on("hext", ("merge",))}
+            "hext_label_prefix_strip": _only_on("hext", ("merge",)),
+            "n3_formula_counter_ids": _only_on("n3", ("merge",))}
